@@ -731,4 +731,21 @@ def classify_known(stream, case, impl, failure):
 RULE = RULE + ("  Stream zsh-model: trees with an adversarial text in every slot on which the scripts of the extracted zsh "
                "generator model (texts as given, innocuous texts, texts without double quotes) must equal the real scripts "
                "byte for byte.")
+LEVEL_TEXT = (LEVEL_TEXT +
+              "  zsh (round 2): the per-slot theorems are composed through a byte-exact model of the zsh generator in which "
+              "every text slot is typed by the escape it is written through.  Level 1 (shell words): for every command tree "
+              "whose names, aliases, option spellings, possible values, argument ids and bin names contain no quote, backslash "
+              "or hash byte, every slot of the ENTIRE file is met inside a single-quoted word, the token skeleton and final "
+              "lexer state of the file are the same for ANY two assignments of help / about / possible-value-help texts with "
+              "the same presence shape, and the payload handed to _arguments / _describe is the fixed payload plus the "
+              "level-1 image of each text.  Level 2 (the _arguments spec, brackets and colons): every spec line the model "
+              "writes (one per option spelling, flag spelling, positional, subcommand name or alias) runs through BOTH lexers "
+              "-- each escape_help slot inside quotes and in the description or a field, each positional help in a field -- "
+              "so its level-2 events are those of the fixed text plus the text as literal payload, and two lines with the "
+              "same fixed text have the same level-2 skeleton.  A quote in a NAME and the double quote in a tooltip at the "
+              "eval level (recorded finding) are proved class boundaries.")
+LEVEL_NOTE = ("Trusted: Coq kernel, extraction, OCaml drivers, Rust harness, generators, the shell lexer models (only "
+              "bash can be executed here), the table translator.  Which slot is emitted through which escape "
+              "function is proved for fish, PowerShell, elvish and zsh (generator models, tied byte for byte on every run) and "
+              "checked on the real scripts only (oracle) for nushell; zsh level 3 (the eval'd ((...)) action) is oracle-only.")
 # ---- end zsh generator model ----
